@@ -21,7 +21,12 @@ def stable_tests(wt):
     env = dict(os.environ, PYTHONPATH=wt)
     passed = set()
     files = None
-    for attempt in range(3):
+    for attempt in range(10):
+        if attempt >= 3:
+            # only the fixed-port HTTP tests are left: another test run on this machine holds the port, wait for it
+            if not all('test_infra_communication' in m for m in missing):
+                break
+            time.sleep(20)
         fd, path = tempfile.mkstemp(suffix='.xml'); os.close(fd)
         cmd = [PY, '-m', 'pytest', '-q', '-p', 'no:cacheprovider', '--timeout=90', '--continue-on-collection-errors', '--junitxml=' + path]
         if files:
